@@ -261,7 +261,6 @@ pub struct Run {
     fresh_n: u64,
     // history classification
     pub fork_since_import: bool,
-    pub deep_fork_since_import: bool,
     pub restart_since_fork: bool,
     /// first trigger of a suspected divergence mechanism seen in this history
     pub taint: Option<&'static str>,
@@ -310,7 +309,6 @@ impl Run {
             fresh_cache: BTreeMap::new(),
             fresh_n: 0,
             fork_since_import: false,
-            deep_fork_since_import: false,
             restart_since_fork: false,
             taint: None,
             labels: BTreeSet::new(),
@@ -399,7 +397,6 @@ impl Run {
         let mut tag = "Fs";
         if let Some((lo, hi)) = bounds {
             if fork_point_number < hi as i64 {
-                self.deep_fork_since_import = true;
                 self.labels.insert("fork:below-highest-stored".into());
                 tag = "Fd";
                 if (fork_point_number + 1) % RANGE as i64 == 0 && fork_point_number >= 0 {
@@ -596,31 +593,71 @@ impl Run {
                 );
             }
         }
+        // (4) probe without verdict: beacons that are NOT aligned (possible only with a signing step that is not a
+        // multiple of 15, which the configuration documents as adjusted but does not enforce)
+        if beacons.0 % 3 == 0 {
+            let cands: Vec<u64> = (lo_b..t)
+                .filter(|b| b % RANGE != 0 && b % RANGE != RANGE - 1 && (b / RANGE + 1) * RANGE <= t + 1)
+                .collect();
+            if !cands.is_empty() {
+                let b = cands[pick_index(beacons.1, cands.len())];
+                let fresh_b = self.fresh(b).await;
+                let cbtx_b = self.sut().cbtx_root(b).await.map_err(|e| format!("{e:#}"));
+                self.labels.insert(
+                    if cbtx_b == fresh_b.cbtx_root {
+                        "probe:unaligned-beacon:cbtx-root-independent-of-import-progress"
+                    } else {
+                        "probe:unaligned-beacon:cbtx-root-DEPENDS-on-import-progress"
+                    }
+                    .into(),
+                );
+            }
+        }
         Verdict::Ok
     }
 
     /// One `Import` operation. Returns a verdict.
     pub async fn import(&mut self, i: usize, sel: &TargetSel, raw: u16, mid: &Option<MidFork>, crash: Option<u8>, beacons: (u16, u16)) -> Verdict {
-        let Some(t) = self.target(sel, raw) else {
+        let Some(mut t) = self.target(sel, raw) else {
             self.shape.push("i-".into());
             return Verdict::Ok;
         };
-        let ctx = format!("op #{i} Import({t})");
         // state before the import (for the classification of the history)
         let pre = self.sut().dump().await.expect("dump");
         let chain_before = self.chain();
-        let by_number: BTreeMap<u64, &Blk> = chain_before.iter().map(|b| (b.number, b)).collect();
-        let pre_stale = pre.blocks.iter().any(|(n, s, hx)| by_number.get(n).map(|b| b.slot != *s || &b.hash_hex() != hx).unwrap_or(true));
+        let pre_stale = {
+            let by_number: BTreeMap<u64, &Blk> = chain_before.iter().map(|b| (b.number, b)).collect();
+            pre.blocks.iter().any(|(n, s, hx)| by_number.get(n).map(|b| b.slot != *s || &b.hash_hex() != hx).unwrap_or(true))
+        };
         let pre_hi = pre.blocks.last().map(|b| b.0);
-        if pre_stale && pre_hi.is_some_and(|h| h >= t) {
-            self.labels.insert("trigger:import-skipped-with-stale-data".into());
-            self.taint.get_or_insert(KEY_SKIP);
-        }
-        if !pre_stale && pre_hi.is_some_and(|h| h >= t) {
+        let roots_missing = |t: u64| {
             let (exp_roots, exp_legacy) = expected_roots(&chain_before, t);
-            if pre.roots.len() < exp_roots.len() || pre.legacy_roots.len() < exp_legacy.len() {
-                self.labels.insert("trigger:import-skipped-with-missing-range-roots".into());
-                self.taint.get_or_insert(KEY_SKIP_ROOTS);
+            pre.roots.len() < exp_roots.len() || pre.legacy_roots.len() < exp_legacy.len()
+        };
+        if pre_hi.is_some_and(|h| h >= t) && (pre_stale || roots_missing(t)) && *sel != TargetSel::Same {
+            // Steering around two confirmed findings (they are exercised by `TargetSel::Same` and witnessed separately):
+            // the next target of the real callers lies above the stored data as soon as the chain has grown.
+            let hi = pre_hi.unwrap();
+            let tip = self.node.lock().unwrap().world.tip_number().unwrap_or(0);
+            if tip <= hi {
+                self.node.lock().unwrap().extend(1 + raw as usize % 3, raw as u64 ^ 0x57ee);
+                self.version += 1;
+            }
+            t = hi + 1;
+            self.labels.insert("steered:target-raised-above-stored-data".into());
+        }
+        let chain_before = self.chain();
+        let ctx = format!("op #{i} Import({t})");
+        if pre_hi.is_some_and(|h| h >= t) {
+            if pre_stale {
+                self.labels.insert("trigger:import-skipped-with-stale-data".into());
+                self.taint.get_or_insert(KEY_SKIP);
+            } else {
+                let (exp_roots, exp_legacy) = expected_roots(&chain_before, t);
+                if pre.roots.len() < exp_roots.len() || pre.legacy_roots.len() < exp_legacy.len() {
+                    self.labels.insert("trigger:import-skipped-with-missing-range-roots".into());
+                    self.taint.get_or_insert(KEY_SKIP_ROOTS);
+                }
             }
         }
         {
@@ -631,7 +668,6 @@ impl Run {
         if let Some(j) = crash {
             self.sut().store.arm(j as u32);
         }
-        let was_deep = self.deep_fork_since_import;
         let was_fork = self.fork_since_import;
         let was_restart_since_fork = self.restart_since_fork;
         self.min_target = self.min_target.max(t);
@@ -685,24 +721,47 @@ impl Run {
         if ev.intersect_skipped_no_agency > 0 {
             self.labels.insert("find-intersect-skipped(no agency)".into());
         }
+        // classes of the history (recorded whatever the verdict is)
+        let ran = ev.requests > 0;
+        let mut tag = String::new();
+        if ran && pre_stale {
+            self.labels.insert("fork-below-highest-stored-then-import".into());
+            self.nontrivial = true;
+            tag.push('d');
+        }
+        if ran && was_fork && was_restart_since_fork {
+            self.labels.insert("restart-between-fork-and-import".into());
+            self.nontrivial = true;
+            tag.push('r');
+        }
+        if ev.fresh_connection && ev.intersect_not_found > 0 {
+            self.labels.insert("restart-with-stale-resume-point".into());
+            self.nontrivial = true;
+            tag.push('s');
+        }
+        if ev.mid_fork_applied.is_some() {
+            self.nontrivial = true;
+            tag.push('m');
+        }
         match res {
             Err(e) => {
                 let msg = format!("{e:#}");
                 if fired && msg.contains(INJECTED) {
                     self.labels.insert("crash-injected".into());
-                    self.shape.push("Ic".into());
+                    self.shape.push(format!("Ic{tag}"));
                     self.restart();
-                    if was_fork {
-                        self.labels.insert("restart-between-fork-and-import".into());
+                    if was_fork || ev.mid_fork_applied.is_some() {
+                        self.fork_since_import = true;
+                        self.restart_since_fork = true;
                     }
                     return Verdict::Ok;
                 }
                 if ev.timeouts > 0 {
                     self.labels.insert("reader-timeout-at-tip".into());
-                    self.shape.push("It".into());
+                    self.shape.push(format!("It{tag}"));
                     return Verdict::Ok;
                 }
-                self.shape.push("I!".into());
+                self.shape.push(format!("I!{tag}"));
                 let key = match self.taint {
                     Some(k) => k.to_string(),
                     None => "import-error".to_string(),
@@ -710,38 +769,16 @@ impl Run {
                 Verdict::Violation(key, format!("{ctx}: import failed although node and store are healthy: {msg}"))
             }
             Ok(()) => {
-                let ran = ev.requests > 0;
-                let mut tag = if ran { "I" } else { "i" }.to_string();
                 let v = self.oracle(t, beacons, &ctx).await;
-                if matches!(v, Verdict::Ok) {
-                    if ran && was_deep {
-                        self.labels.insert("fork-below-highest-stored-then-import".into());
-                        self.nontrivial = true;
-                        tag.push('d');
-                    }
-                    if ran && was_fork && was_restart_since_fork {
-                        self.labels.insert("restart-between-fork-and-import".into());
-                        self.nontrivial = true;
-                        tag.push('r');
-                        if was_deep {
-                            self.labels.insert("restart-with-stale-resume-point".into());
-                        }
-                    }
-                    if ev.mid_fork_applied.is_some() {
-                        self.nontrivial = true;
-                        tag.push('m');
-                    }
-                    if ran {
-                        self.fork_since_import = false;
-                        self.deep_fork_since_import = false;
-                        self.restart_since_fork = false;
-                    }
-                    if ev.mid_fork_applied.is_some() {
-                        // a switch that happened after the importer stopped reading is still pending
-                        self.fork_since_import = true;
-                    }
+                if ran {
+                    self.fork_since_import = false;
+                    self.restart_since_fork = false;
                 }
-                self.shape.push(tag);
+                if ev.mid_fork_applied.is_some() {
+                    // a switch that happened after the importer stopped reading is still pending
+                    self.fork_since_import = true;
+                }
+                self.shape.push(format!("{}{tag}", if ran { "I" } else { "i" }));
                 v
             }
         }
@@ -804,6 +841,67 @@ pub fn run_case(case: &Case) -> Report {
     rep
 }
 
+// ------------------------------------------------------------------------------------------------ witnesses
+
+fn wcfg(initial_blocks: u8, max_per_poll: u8) -> Cfg {
+    Cfg { max_per_poll, chunk: 1000, prune_keep: None, sp: 0, first_no: 1, first_slot: 1, initial_blocks, seed: 7, idle_timeout: false }
+}
+
+fn wimport(sel: TargetSel, mid: Option<MidFork>, crash: Option<u8>) -> Op {
+    Op::Import { sel, raw: 0, mid, crash, beacons: (1, 1) }
+}
+
+/// Minimal histories of the findings made with this check (each is re-run against the real code on every run).
+pub fn witnesses() -> Vec<(&'static str, &'static str, Case)> {
+    vec![
+        (
+            KEY_SKIP,
+            "after a chain switch below the highest stored block, import(t) with t <= highest stored block does nothing: rolled-back blocks and their range roots stay and are offered for signing",
+            Case {
+                cfg: wcfg(40, 3),
+                ops: vec![
+                    wimport(TargetSel::Tip, None, None),
+                    Op::Fork { sel: ForkSel::BelowHighestStored, raw: 4, extra: 0, seed: 1 },
+                    wimport(TargetSel::Same, None, None),
+                ],
+            },
+        ),
+        (
+            KEY_BELOW_ALL,
+            "a roll-back to a point below every stored block (e.g. RollBackward(origin) after a restart whose resume point is no longer on the chain) deletes nothing: the new branch collides with the stale blocks",
+            Case {
+                cfg: wcfg(40, 3),
+                ops: vec![
+                    wimport(TargetSel::Tip, None, None),
+                    Op::Fork { sel: ForkSel::BelowHighestStored, raw: 4, extra: 5, seed: 1 },
+                    Op::Restart,
+                    wimport(TargetSel::Tip, None, None),
+                ],
+            },
+        ),
+        (
+            KEY_RB_FROM,
+            "a roll-back to exactly the start point of the running scan is dropped by the block streamer although blocks after that point were already handed over and stored",
+            Case {
+                cfg: wcfg(30, 2),
+                ops: vec![
+                    wimport(TargetSel::CtxBeacon, None, None),
+                    Op::Extend { n: 20, seed: 3 },
+                    wimport(TargetSel::Tip, Some(MidFork { after_reads: 6, to_from: true, back: 0, extra: 0, seed: 5 }), None),
+                ],
+            },
+        ),
+        (
+            KEY_SKIP_ROOTS,
+            "a stop between storing the blocks and storing their block range roots is never repaired for the same target: the chunked importer skips the whole import, the Merkle root at the beacon misses the last ranges",
+            Case {
+                cfg: wcfg(40, 7),
+                ops: vec![wimport(TargetSel::Tip, None, Some(7)), wimport(TargetSel::Same, None, None)],
+            },
+        ),
+    ]
+}
+
 // ------------------------------------------------------------------------------------------------ entry
 
 /// `import` runs on tokio's blocking pool; a panic of the code under test there is reported to the caller as an
@@ -838,7 +936,9 @@ pub fn run(args: &Args) -> i32 {
         .assume("beacons compared for import-progress independence are aligned (b mod 15 in {0, 14}) as produced by the signing configurations with a step multiple of 15")
         .require_label("fork-below-highest-stored-then-import")
         .require_label("fork:at-range-boundary")
+        .require_label("fork:to-first-stored-block")
         .require_label("restart-between-fork-and-import")
+        .require_label("restart-with-stale-resume-point")
         .require_label("crash-injected")
         .require_label("mid-import-fork")
         .require_label("earlier-beacon-compared");
@@ -853,7 +953,11 @@ pub fn run(args: &Args) -> i32 {
         check.note_section("simnode-validation", serde_json::json!({"scenarios": validate::SCENARIOS, "kind": "model validation", "result": "ok"}));
     }
 
-    check.section("histories", case_strategy, t.pick(160, 6000), run_case);
+    check.section("histories", case_strategy, t.pick(240, 8000), run_case);
+
+    for (key, what, case) in witnesses() {
+        check.witness(key, what, || matches!(run_case(&case).outcome, vcore::Outcome::Violation { key: k, .. } if k == key));
+    }
 
     check.finish()
 }
